@@ -194,6 +194,14 @@ def gen_case(rnd, spec):
             gen["payloads"].append({"id": new("readopter"), "flavour": fl, "when": "queued", "cleanup": {"kind": "none"},
                                     "program": [["sleep", 0.08], ["adopt_same", again["id"]], ["beat", 0.02, None]]})
         gen.setdefault("tags", []).append("thread_payload_adopted_again_while_running")
+    # a thread payload constructs a service whose constructor blocks for 1.3 s: that is blocking inside a thread payload like any other
+    if rnd.random() < 0.25:
+        slow = {"id": new("slowsvc"), "flavour": rnd.choice(common.FLAVOURS), "program": [["ctx"], ["sleep", 0.01]], "init_blocks": 1.3}
+        gen["services"].append(slow)
+        gen["payloads"].append({"id": new("builder"), "flavour": "threading", "when": "queued", "cleanup": {"kind": "none"},
+                                "program": [["sleep", 0.1], ["service", slow["id"]]]})
+        long_blocker = True
+        gen.setdefault("tags", []).append("service_with_blocking_constructor_built_by_a_thread_payload")
     # a coroutine payload adopts 16 long-blocking thread payloads in one go: adopt returns at once for each, the loop carries on
     if rnd.random() < 0.2:
         fl = rnd.choice(common.COROUTINE)
@@ -548,7 +556,7 @@ def finish(total, tier):
     need = ["synchronous_sections_checked", "blocking_thread_payloads_observed", "heartbeats_during_blocking", "scenarios_with_foreign_loop_submitter",
             "steps_adopted_threading", "sections_that_adopt_checked", "blocking_executes_observed", "scenarios_with_crowd", "scenarios_with_no_threads",
             "scenarios_with_parked_payloads_and_gc", "scenarios_with_thread_payload_adopted_again_while_running", "scenarios_with_compute_bound_thread_payload", "scenarios_with_adoption_of_16_blocking_thread_payloads_in_one_go", "callbacks_of_a_shipped_trio_service_checked", "scenarios_with_interrupt_in_a_thread_waiting_in_execute", "ends_by_thread_failure_beside_a_blocked_thread_checked", "compute_bound_thread_payloads_observed",
-            "scenarios_with_execute_from_foreign_trio_worker", "synchronous_first_sections_of_plain_callables_checked", "scenarios_with_shutdown_window", "payload_endings_checked", "scenarios_with_rival_runtime", "scenarios_with_rival_accepts", "daemon_configurations_loaded_by_the_runtimes_own_asyncio_payload"]
+            "scenarios_with_execute_from_foreign_trio_worker", "synchronous_first_sections_of_plain_callables_checked", "scenarios_with_shutdown_window", "payload_endings_checked", "scenarios_with_rival_runtime", "scenarios_with_rival_accepts", "scenarios_with_service_with_blocking_constructor_built_by_a_thread_payload", "daemon_configurations_loaded_by_the_runtimes_own_asyncio_payload"]
     need += ["steps_%s_%s" % (r, f) for r in ("adopted", "service", "executed") for f in common.COROUTINE]
     for name in need:
         if not total.counters.get(name) and not total.violations:
